@@ -105,17 +105,20 @@ CHECKS.update({
  "C07": node("C07", "One dispatched message yields at most one queued message, an answer on the same connection to a REQUEST with its command/app/ids; a "
              "non-request is never answered; events other than a network read or an application answer queue requests only; every dispatched request that "
              "passes the gate is answered or delivered.",
-             "C07_dispatch_answers, C07_no_answer_to_answer, C07_answers_only_from, C07_dispatch_all_answers"),
+             "C07_dispatch_answers, C07_no_answer_to_answer, C07_answers_only_from, C07_dispatch_all_answers; over whole histories: C07_history_node_answers, "
+             "C07_history_app_answers, C07_history_answers_le_requests, C07_history_at_most_once, C07_history_no_answer_to_answer"),
  "C08": node("C08", "route_app refines a declarative routing specification (realm, application id, peer configured for the app); a delivered message goes to "
              "exactly one application, base-protocol commands are never delivered, nothing is delivered unless the gate passes.",
              "C08_route_refines, C08_exactly_once, C08_base_never_delivered, C08_gate_then_route"),
  "C09": node("C09", "An application's answer is handed to exactly one READY connection under whose host identity the (hop-by-hop, end-to-end) pair was "
              "waiting, otherwise NotRoutable; entries arise only from delivered requests; second submission fails; entries go with the connection.",
-             "C09_answer_shape, C09_to_requester, C09_entry_from_delivery, C09_entry_host, C09_gone_is_error, C09_second_fails, C09_second_is_error, C09_removed_on_close"),
+             "C09_answer_shape, C09_to_requester, C09_entry_from_delivery, C09_entry_host, C09_gone_is_error, C09_second_fails, C09_second_is_error, C09_removed_on_close; over whole histories: C07_history_app_answers (the answer goes out on the connection that read the request)"),
  "C10": node("C10", "route_request refines its specification (application's peers for the realm, else defaults, ready only); the request goes to a peer "
              "chosen from the usable list, identifiers fresh from the generators (bridge to the C16 counter theorems), NotRoutable when none; the "
              "answer is correlated to the recorded application once, duplicates ignored.",
-             "route_request_spec, C10_request_shape, C10_eligible, C10_none_is_error, C10_hbh_fresh, C10_correlation, C10_duplicate_ignored"),
+             "route_request_spec, C10_request_shape, C10_eligible, C10_none_is_error, C10_hbh_fresh, C10_correlation, C10_duplicate_ignored; over whole histories: "
+             "C10_history_answer_to_sender, C10_history_answer_once, C10_history_requests_only_to_ready",
+             extra="Link/LinkIds.v ties the hop-by-hop generator to node/_helpers.py; concurrent senders are searched with the C16 schedule exploration"),
  "C11": node("C11", "check_timers unfolded as a decision table over state x timers with per-peer override; exactly one DWR when idle, none while waiting, "
              "DWA restores READY, silence closes with the watchdog reason, no DWR while traffic arrives, DWR answered 2001 in both ready sub-states, "
              "timer check idempotent.",
@@ -123,7 +126,7 @@ CHECKS.update({
  "C12": node("C12", "DPR -> DPA 2001, DISCONNECTING (not offered by route_request), reason recorded; reconnect_all dials exactly the peers satisfying the "
              "declarative policy (persistent, no connection, wait elapsed, not after DPR unless always-reconnect, not stopping); non-persistent "
              "peers are never dialled by any event; invariant: at most one self-initiated connection per peer in every reachable state.",
-             "C12_dpr, C12_dpr_not_routed, C06_cea_never_revives, wants_reconnect_spec, C12_reconnect_iff, C12_never_nonpersistent, C12_dial_needs_no_connection, C12_outbound_owned, C12_single_outbound"),
+             "C12_dpr, C12_dpr_not_routed, C06_cea_never_revives, wants_reconnect_spec, C12_reconnect_iff, C12_never_nonpersistent, C12_dial_needs_no_connection, C12_outbound_owned, C12_single_outbound, C12_history_no_routing_after_dpr"),
  "C13": node("C13", "Inductive invariants over every reachable state, proved per atomic step of a decomposition of the model: connection ids unique, "
              "socket / half-ready tables are subsets of the connections, a closed connection is in no table and stays closed, removal sets disconnect "
              "reason and time; peer.connection references a live connection of that peer, conversely a ready connection of a peer IS its connection, "
@@ -152,7 +155,8 @@ CHECKS.update({
              note=NOTE_COMMON + " The meaning of each micro-instruction (attribute load/store, lock, queue, socket send accepting 1..n bytes) is the model's; SCTP send is not exercised."),
  "C17": node("C17", "The per-origin window is a bounded FIFO: append keeps the newest `size` identifiers in order, membership after a record, duplicates "
              "answered exactly when (T flag and identifier still in the window).",
-             "bounded_append_spec, C17_window, C17_sa_mem_get, C17_sa_nodup, C17_dup_iff, C17_record"),
+             "bounded_append_spec, C17_window, C17_sa_mem_get, C17_sa_nodup, C17_dup_iff, C17_record; over whole histories: C17_history_window, "
+             "C17_history_duplicate_rejected, C17_history_no_false_duplicate"),
  "C18": node("C18", "stop: one DPR to every ready connection (none when forced), stopping flag; while stopping no timers fire, nothing is dialled, newcomers "
              "are closed unserved; DPA closes once output is flushed; stop-finish closes every connection.",
              "C18_dpr_to_ready, C18_quiet_while_stopping, C18_newcomers_refused, C18_all_closed, C18_close_after_dpa",
